@@ -21,6 +21,7 @@ func init() {
 			sc("ttl-4", "size=4,keys=3,costs=1,ttls=0/1/2/3/4/5,depth=3,targets=4/3/1", 4, 60),
 			sc("ttl-4-aged", "size=4,keys=3,costs=1,ttls=0/1/2/3/4/5,depth=3,targets=4/3/1,age=259200", 4, 60),
 			sc("shrunk-hot", "size=1000,keys=2,costs=1,alpha=get,prefix=200,shrink=100,heat=15,depth=1,targets=1000/500", 1, 60),
+			sc("grown-cold-protected", "size=1000,keys=2,costs=1,alpha=get,prefix=40,hot=10,grow=100,depth=1,targets=1000/500", 1, 60),
 			sc("types-string", "vt=string,size=4,keys=2,costs=1/2,ttls=0/2,depth=3", 1, 60),
 			sc("types-struct", "vt=struct,size=4,keys=2,costs=1/2,ttls=0/2,depth=3", 1, 60),
 			sc("types-bytes", "vt=bytes,size=4,keys=2,costs=1/2,ttls=0/2,depth=3", 1, 60),
@@ -39,6 +40,7 @@ func init() {
 			sc("ttl-10-costs", "size=10,keys=3,costs=1/4,ttls=0/1/3/5,depth=3,age=7200,targets=10/7/4/2/1", 4, 600),
 			sc("shrunk-hot", "size=1000,keys=3,costs=1,alpha=get/set/del,prefix=200,shrink=100,heat=15,depth=2,targets=1000/500/100", 2, 600),
 			sc("shrunk-hot-300", "size=1000,keys=2,costs=1,alpha=get,prefix=300,shrink=30,heat=15,depth=1,targets=1000", 1, 600),
+			sc("grown-cold-protected", "size=1000,keys=3,costs=1,alpha=get/set/del,prefix=40,hot=10,grow=100,depth=2,targets=1000/500/100", 2, 600),
 			sc("types-string", "vt=string,size=4,keys=3,costs=1/2,ttls=0/2,depth=4", 2, 600),
 			sc("types-struct", "vt=struct,size=4,keys=3,costs=1/2,ttls=0/2,depth=4", 2, 600),
 			sc("types-bytes", "vt=bytes,size=4,keys=3,costs=1/2,ttls=0/2,depth=4", 2, 600),
